@@ -221,6 +221,12 @@ pub fn long_cases(huge: bool) -> Vec<ValidCase> {
         long_case(long_cfg(3, 0, true), 0, 0, 0, Expand { bigs: vec![(1, 1_048_577), (2, 2_621_440)], ..ex(3, 0) }),
         long_case(long_cfg(0, 3, false), 0, 0, 5, Expand { bigs: vec![(4, 2_000_000)], ..ex(8, 12) }),
         long_case(long_cfg(1, 0, true), 0, 0, 0, Expand { bigs: vec![(8, 1_048_576 - 4)], ..ex(9, 0) }),
+        // constant rate in both tracks with the audio starting a fraction of an audio frame late; a slideshow (1 fps) with 20 ms
+        // audio packets: more than 32 audio samples between two video frames, and a tie at every video frame
+        long_case(long_cfg(0, 1, true), 0, 900, 1, Expand { shapes: false, ..ex(140, 140) }),
+        long_case(long_cfg(1, 1, false), 0, 1000, 5, Expand { shapes: false, ..ex(300, 400) }),
+        long_case(long_cfg(2, 7, true), 0, 0, 1, Expand { vd: 90_000, ad: 1800, ..ex(6, 251) }),
+        long_case(long_cfg(0, 1, false), 0, 0, 5, Expand { vd: 96_000, ad: 1920, ..ex(5, 201) }),
         // a long uniform warm-up (one start-code style, one ADTS header form), then frames of every other shape
         long_case(long_cfg(0, 1, true), 0, 0, 1, Expand { uniform: Some((1500, 1, 1)), ..ex(1600, 1600) }),
         long_case(long_cfg(1, 2, false), 0, 0, 5, Expand { uniform: Some((1100, 0, 0)), ..ex(1200, 1200) }),
